@@ -52,7 +52,7 @@ func (s *Stash) LoadExpanded(filename string) {
 			}
 			panic(err)
 		}
-		if 0 < len(line) {
+		if 0 < len(line) || 0 < len(form) {
 			if bytes.ContainsRune(line, '\t') {
 				for _, sub := range bytes.Split(line, []byte{'\t'}) {
 					buf = append(buf, sub...)
